@@ -236,6 +236,14 @@ def LockSt.acquire (cap : Nat) (s : LockSt) (t : Nat) (keys : List Key) (write :
   else if keys.all (fun k => freeC cap s.holds k write) then some (⟨grant s.holds t keys write, none⟩, true)
   else some (⟨s.holds, some ⟨t, keys, write⟩⟩, false)
 
+/-- acquire with a context that is ALREADY done (cancelled / deadline passed), as the semaphore maps take one: a free
+key is still granted (`Weighted.acquire` looks at the tokens first), a held key fails at once WITHOUT queueing
+(`false`, state unchanged). Same legality conditions as `acquire`. -/
+def LockSt.acquireDone (cap : Nat) (s : LockSt) (t : Nat) (keys : List Key) (write : Bool) : Option (LockSt × Bool) :=
+  if s.waiter.isSome || keys.isEmpty || (write && !distinct keys) || s.holds.any (fun h => h.thread = t && keys.contains h.key) then none
+  else if keys.all (fun k => freeC cap s.holds k write) then some (⟨grant s.holds t keys write, none⟩, true)
+  else some (s, false)
+
 /-- one hold of thread `t` is given back per listed key (a key listed twice in a READ list was taken twice) -/
 def dropHolds (holds : List Hold) (t : Nat) (keys : List Key) (write : Bool) : List Hold :=
   keys.foldl (fun hs k => hs.erase ⟨t, k, write⟩) holds
@@ -288,6 +296,13 @@ def ShLockSt.acquire (cap : Nat) (idx : Key → Nat) (s : ShLockSt) (t : Nat) (k
     some (⟨shGrant idx s.shards t keys write, none⟩, true)
   else some (⟨s.shards, some ⟨t, keys, write⟩⟩, false)
 
+def ShLockSt.acquireDone (cap : Nat) (idx : Key → Nat) (s : ShLockSt) (t : Nat) (keys : List Key) (write : Bool) : Option (ShLockSt × Bool) :=
+  if s.waiter.isSome || keys.isEmpty || (write && !distinct keys) ||
+      keys.any (fun k => (s.shards (idx k)).any (fun h => h.thread = t && h.key = k)) then none
+  else if (shardOrder idx keys).all (fun k => shFree cap idx s.shards k write) then
+    some (⟨shGrant idx s.shards t keys write, none⟩, true)
+  else some (s, false)
+
 def ShLockSt.release (cap : Nat) (idx : Key → Nat) (s : ShLockSt) (t : Nat) (keys : List Key) (write : Bool) : Option (ShLockSt × Option Nat) :=
   if keys.isEmpty || (write && !distinct keys) || (s.waiter.any (fun w => w.thread = t)) ||
       !keys.all (fun k => decide (keys.count k ≤ (s.shards (idx k)).count ⟨t, k, write⟩)) then none
@@ -301,9 +316,13 @@ def ShLockSt.release (cap : Nat) (idx : Key → Nat) (s : ShLockSt) (t : Nat) (k
     | none => some (⟨sh, none⟩, none)
 
 /-- lock requests and answers of a script line -/
-inductive LReq | acq (t : Nat) (keys : List Key) (write : Bool) | rel (t : Nat) (keys : List Key) (write : Bool)
+inductive LReq
+  | acq (t : Nat) (keys : List Key) (write : Bool)
+  | rel (t : Nat) (keys : List Key) (write : Bool)
+  /-- acquire with an already cancelled / expired context -/
+  | acqDone (t : Nat) (keys : List Key) (write : Bool)
 
-inductive LResp | illegal | granted | parked | released (woke : Option Nat)
+inductive LResp | illegal | granted | parked | released (woke : Option Nat) | refused
 deriving DecidableEq, Repr
 
 def lockStep (cap : Nat) (s : LockSt) : LReq → LockSt × LResp
@@ -314,6 +333,10 @@ def lockStep (cap : Nat) (s : LockSt) : LReq → LockSt × LResp
   | .rel t keys w => match s.release cap t keys w with
     | none => (s, .illegal)
     | some (s', woke) => (s', .released woke)
+  | .acqDone t keys w => match s.acquireDone cap t keys w with
+    | none => (s, .illegal)
+    | some (s', true) => (s', .granted)
+    | some (s', false) => (s', .refused)
 
 def shLockStep (cap : Nat) (idx : Key → Nat) (s : ShLockSt) : LReq → ShLockSt × LResp
   | .acq t keys w => match s.acquire cap idx t keys w with
@@ -323,5 +346,9 @@ def shLockStep (cap : Nat) (idx : Key → Nat) (s : ShLockSt) : LReq → ShLockS
   | .rel t keys w => match s.release cap idx t keys w with
     | none => (s, .illegal)
     | some (s', woke) => (s', .released woke)
+  | .acqDone t keys w => match s.acquireDone cap idx t keys w with
+    | none => (s, .illegal)
+    | some (s', true) => (s', .granted)
+    | some (s', false) => (s', .refused)
 
 end Nv.C17
